@@ -439,6 +439,17 @@ def build_python(spec, pool=None):
     pool = pool if pool is not None else {}
     ops = {}
     for k, o in spec['ops'].items():
+        if o.get('derived_from'):
+            # an operator DERIVED (update_template) from the pooled base operator object of another model
+            b = o['derived_from']
+            if ('op', b['key']) not in pool:
+                bo = {'lib': o['lib'], 'name': b['name'], 'defaults': b['defaults'], 'reads': o.get('reads')}
+                pool[('op', b['key'])] = OperatorTemplate(name=b['name'], equations=op_eqs(bo),
+                                                          variables=_vardecl(o['lib'], {**LIB[o['lib']]['defaults'], **b['defaults']}, bo))
+            # (derived afresh at every build: the base may have been compiled in the meantime)
+            ops[k] = pool[('op', b['key'])].update_template(name=o['name'],
+                                                            variables={v_: float(x_) for v_, x_ in o['derive_var'].items()})
+            continue
         if ('op', k) not in pool:
             decl = _vardecl(o['lib'], {**LIB[o['lib']]['defaults'], **o.get('defaults', {})}, o)
             if o.get('decl') == 'dict':
@@ -447,7 +458,7 @@ def build_python(spec, pool=None):
         ops[k] = pool[('op', k)]
     nts = {}
     for k, nt in spec['nts'].items():
-        if ('nt', k) not in pool:
+        if ('nt', k) not in pool or any(spec['ops'][ok].get('derived_from') for ok in nt['ops']):
             if nt.get('var'):
                 pool[('nt', k)] = NodeTemplate(name=nt['name'],
                                                operators={ops[ok]: {v_: cval(x_) for v_, x_ in nt['var'].get(ok, {}).items()}
